@@ -654,12 +654,16 @@ func (cfg *Config) handshakeMaintenance(ctx context.Context, hello *tls.ClientHe
 				zap.Time("next_update", cert.ocsp.NextUpdate))
 		}
 
-		// our copy of cert has the new OCSP staple, so replace it in the cache
+		// our copy of cert has the new OCSP staple, so update it in the cache
 		// (unless it has been removed or replaced in the meantime: putting it
-		// back would leave it in the cache without any entry in the name index)
+		// back would leave it in the cache without any entry in the name index);
+		// only the staple is updated, because the cached certificate may have
+		// changed since we got our copy (for example, tags may have been added)
 		cfg.certCache.mu.Lock()
-		if _, ok := cfg.certCache.cache[cert.hash]; ok {
-			cfg.certCache.cache[cert.hash] = cert
+		if cachedCert, ok := cfg.certCache.cache[cert.hash]; ok {
+			cachedCert.ocsp = cert.ocsp
+			cachedCert.Certificate.OCSPStaple = cert.Certificate.OCSPStaple
+			cfg.certCache.cache[cert.hash] = cachedCert
 		}
 		cfg.certCache.mu.Unlock()
 	}
